@@ -41,10 +41,28 @@ MANIFEST = dict(
     design="6 C16",
     engines=[dict(name="E-lints", path="harness/src/eng_lints.rs + coq/extract/eng_lints.ml",
                   kind_free_text="two-phase differential: real diagnostic report (requested twice) through ProjectManager on a temp "
-                                 "workspace + tree dump vs extracted Coq lint models on that tree")],
+                                 "workspace + tree dump vs extracted Coq lint models on that tree"),
+             dict(name="E-report", path="harness/src/eng_report.rs + coq/extract/eng_report.ml",
+                  kind_free_text="two-phase differential on the ASSEMBLED response: generate_document_diagnostic_report twice on one "
+                                 "manager, the document's parser diagnostics, the five real checkers driven one by one vs the extracted "
+                                 "Report.request on the dumped tree + parser diagnostics; items compared in order (range, severity, source, "
+                                 "tags, full message text); oracle on the implementation's output alone"),
+             dict(name="E-reportranges", path="coq/extract/eng_reportranges.ml",
+                  kind_free_text="model-only: the two range hypotheses of C16_response_in_range_partial evaluated by the extracted "
+                                 "contrib / in_range_of / report on every dumped tree of the report stage")],
 )
 
 ASSUMPTIONS = [
+    "assembled response (Model/Report.v, C16_response_* / C15_response_*): the items are compared IN ORDER except that every maximal "
+    "run of consecutive `Unused var` warnings is compared as a multiset (UnusedVarAnalyzer::check_unused_vars iterates a HashMap: the "
+    "order of ONE method's warnings is unspecified; the model lists them in declaration order); parser diagnostics, `Var name already "
+    "declared` errors, the return-type list and the shared collector of the three annotated-tree checkers (per node of the pre-order "
+    "walk: unpurged, naming, inherited) are order-exact; lsp_types::Diagnostic fields code / code_description / related_information / "
+    "data are None in every producer and not compared; the parser diagnostics are an input of the model (dumped from the document)",
+    "C16_response_in_range_partial assumes that the items about a top-level declaration lie in its range and the items about the "
+    "other declarations do not: checked on every tree of the report stage (coverage key range_hypotheses); they hold on every tree "
+    "parsed without diagnostics and fail on some trees with syntax errors (a method whose end keyword is missing or swallowed by an "
+    "unterminated string has a range that does not cover its body)",
     "identifiers are ASCII ([A-Za-z0-9_] by construction of the lexer): char::is_uppercase is modelled as A-Z and "
     "str::to_uppercase as ASCII upper-casing; where a string literal's content is compared with an ASCII word (PASS, the "
     "method name after `inherited x.`) the ten non-ASCII scalar values with an ASCII full upper-casing (sharp s, dotless i, "
@@ -802,6 +820,276 @@ def permutation_check(ctx, pairs):
     return len(pairs)
 
 
+# =============================================================================================
+# the ASSEMBLED response (engine `report`, Model/Report.v, Proofs/ReportProofs.v, C15_response_* / C16_response_*)
+# =============================================================================================
+GOLD = cps("gold")
+U_PREFIX = cps("Unused var: ")
+REPORT_BAD_LINES = ["proc Q(", "x = = 1", "var : int4", "func F return", "'unterminated", "@", "endif", "proc", "type T :",
+                    "const = 3", "x = (1 + ", "foo(1, ", "if", "a.b. = 2", "var v tVarByteArray", "\"open", "?", "endproc", "class", "x = 1 +"]
+
+
+def report_item(x):
+    """sev, src, tags, (sl, sc, el, ec), message text"""
+    f = x.split(":")
+    return f[0], f[1], f[2], tuple(f[3:7]), (uncps(f[7]) if f[7] != "-" else "")
+
+
+def is_unused_item(x):
+    f = x.split(":")
+    return f[0] == "2" and (f[7] == U_PREFIX or f[7].startswith(U_PREFIX + "."))
+
+
+def report_canon_list(lst):
+    """every maximal run of consecutive "Unused var" warnings sorted (UnusedVarAnalyzer::check_unused_vars iterates a
+    HashMap: the order of ONE method's warnings is unspecified); every other position is compared as it is"""
+    items = [x for x in lst.split(";") if x]
+    out, run = [], []
+    for x in items:
+        if is_unused_item(x):
+            run.append(x)
+        else:
+            out += sorted(run) + [x]
+            run = []
+    return ";".join(out + sorted(run))
+
+
+def report_canon(obs):
+    parts = obs.split("|")
+    if len(parts) != 3:
+        return obs
+    parts[0] = report_canon_list(parts[0])
+    if parts[1].startswith("IDEM-BAD!"):
+        parts[1] = "IDEM-BAD!" + report_canon_list(parts[1][9:])
+    return "|".join(parts)
+
+
+def report_split(out):
+    """-> (model input = tree dump @ parser diagnostics, observation).  The parser diagnostics the document holds are
+    the engine's own dump: that the response STARTS with them, in their order, as ERROR / "gold" / untagged items is
+    checked here (the model receives them as input) and reported through the observation"""
+    if "#" not in out:
+        return ("", out)
+    left, obs = out.split("#", 1)
+    if obs.startswith("ERR"):
+        return ("", obs)
+    tree, pd = left.split("@", 1) if "@" in left else (left, "")
+    if "99=n1" in tree:
+        return (left, "VIEWS-DISAGREE " + obs)
+    want = ["1:%s:-:%s" % (GOLD, x) for x in pd.split(";") if x]
+    got = [x for x in obs.split("|")[0].split(";") if x]
+    if got[:len(want)] != want:
+        return (left, "PARSER-PREFIX-BAD expected the response to start with %r|%s" % (want, obs))
+    return (left, obs)
+
+
+def report_oracle(case, impl_out):
+    """the statement on the implementation's output alone: response vs. what the real checkers say one by one"""
+    if impl_out.startswith("PANIC") or impl_out in ("CRASH", "HANG") or impl_out.startswith("ERR") \
+            or impl_out.startswith("VIEWS") or impl_out == "":
+        return "the diagnostic request failed: " + impl_out[:200]
+    if impl_out.startswith("PARSER-PREFIX-BAD"):
+        return "the response does not start with the document's parser diagnostics in parser order: " + impl_out[:400]
+    parts = impl_out.split("|")
+    if len(parts) != 3:
+        return "unreadable observation " + impl_out[:200]
+    if parts[1] != "IDEM-OK":
+        return "repeating the request does not repeat the same list: first %r, second %r" % (parts[0][:300], parts[1][9:][:300])
+    if "NO-ANNOTATED-TREE" in parts[2]:
+        return "the document has no annotated tree: the response lacks the three annotated-tree checkers"
+    resp = [x for x in parts[0].split(";") if x]
+    groups = [[x for x in g.split(";") if x] for g in parts[2].split("/")]
+    if len(groups) != 5:
+        return "unreadable checker section " + parts[2][:200]
+    # (i) the parser's items (ERROR, source gold, no tag) first: none of them after any other item
+    k = 0
+    while k < len(resp) and resp[k].split(":")[0] == "1" and resp[k].split(":")[2] == "-":
+        k += 1
+    for x in resp[k:]:
+        f = x.split(":")
+        if f[0] == "1" and f[2] == "-":
+            return "a parser diagnostic (ERROR, untagged) after an analyser's diagnostic: %s" % (report_item(x),)
+    for x in resp:
+        if x.split(":")[1] != GOLD:
+            return "an item whose source is not \"gold\": %s" % (report_item(x),)
+    rest = resp[k:]
+    # (iii) nothing dropped, nothing invented, nothing doubled: the analysers' part of the response is, as a multiset,
+    #       the union of what the five real checkers say one by one ...
+    from collections import Counter
+    union = Counter()
+    for g in groups:
+        union.update(g)
+    got = Counter(rest)
+    if got != union:
+        missing = sorted((union - got).elements())
+        extra = sorted((got - union).elements())
+        return "flagged by a checker but not in the response: %s; in the response but flagged by no checker (or more often than flagged): %s" % (
+            [report_item(x) for x in missing[:4]], [report_item(x) for x in extra[:4]])
+    # ... in the fixed order of the groups: all of UnusedVarAnalyzer's, all of FunctionReturnTypeChecker's, then the
+    #     shared collector of the three annotated-tree checkers
+    a, b = len(groups[0]), len(groups[1])
+    if Counter(rest[:a]) != Counter(groups[0]):
+        return "the items after the parser's are not UnusedVarAnalyzer's: %s" % ([report_item(x) for x in rest[:a]][:4],)
+    if Counter(rest[a:a + b]) != Counter(groups[1]):
+        return "the items after UnusedVarAnalyzer's are not FunctionReturnTypeChecker's: %s" % ([report_item(x) for x in rest[a:a + b]][:4],)
+    # every WARNING is one of the analysers' (a parser item is an ERROR): follows from the above; severity sanity
+    for x in resp[:k]:
+        if x.split(":")[0] != "1":
+            return "a parser diagnostic that is not an ERROR: %s" % (report_item(x),)
+    return None
+
+
+def report_multi_rule_programs():
+    """several rules on ONE name / ONE range: casing + inherited on a method name; unpurged + casing + unused on a local;
+    a local declared twice (error + warnings on both tokens); return type + casing + inherited on one function"""
+    out = []
+    for nm, kind, ov in itertools.product(["init", "terminate", "notifyInit", "Init", "work"], ["proc", "func"], [False, True]):
+        for ln, ty, used, purged, twice in itertools.product(["Vx", "vx", "_v"], ["tVarByteArray", "int4"], [False, True], [False, True], [False, True]):
+            body = ["var %s : %s" % (ln, ty)]
+            if twice:
+                body.append("var %s : %s" % (ln.swapcase() if ln != "_v" else ln, ty))
+            if used:
+                body.append("x = %s" % ln)
+            if purged:
+                body.append("Purge(%s)" % ln)
+            m = Method(kind, nm, ["bad : int4"] if used else [], "Text" if purged else "int4", ["override"] if ov else [], body)
+            out.append(render([m.render()])[0])
+    # two methods with the same local names: the same message text at two ranges; a field and a method of one name
+    for ln in ["Vx", "k"]:
+        out.append(render([Method("proc", "first", [], "int4", [], ["var %s : tVarByteArray" % ln]).render(),
+                           Method("func", "init", [], "tVarByteArray", [], ["var %s : tVarByteArray" % ln, "var %s : int4" % ln]).render(),
+                           ["init : int4"], ["const Bad = 1"], ["type Bad : int4"]])[0])
+    return out
+
+
+def report_cases(ctx):
+    """-> (cases, histogram)"""
+    import glob
+    from checks import c15
+    rng = random.Random(ctx.seed * 7919 + 16)
+    hist = {}
+    texts = []
+
+    def add(fam, t):
+        texts.append(t)
+        hist[fam] = hist.get(fam, 0) + 1
+
+    # the generators of C16 and C15 (their whole streams, sampled with the run's seed)
+    c16_cases, _, _ = gen_programs(ctx)
+    c16_texts = [uncps(c) for c in c16_cases]
+    n16 = 420 if ctx.quick else 9000
+    for t in (rng.sample(c16_texts, n16) if len(c16_texts) > n16 else c16_texts):
+        add("c16-generators", t)
+    c15_cases, c15_meta = c15.gen_cases(ctx)
+    n15 = 380 if ctx.quick else 9000
+    for c in (rng.sample(c15_cases, n15) if len(c15_cases) > n15 else c15_cases):
+        add("c15-generators", c15.dec(c))
+    # the repository's own test files
+    for f in sorted(glob.glob(os.path.join(core.REPO, "test", "*.god")) + glob.glob(os.path.join(core.REPO, "test", "workspace", "*.god"))):
+        with open(f, "rb") as fh:
+            add("repo-test-files", fh.read().decode("utf-8", "replace"))
+    # several rules on one name / one range
+    multi = report_multi_rule_programs()
+    for t in (rng.sample(multi, 350) if ctx.quick else multi):
+        add("multi-rule", t)
+    # syntax errors (parser diagnostics present), in and between methods, one to three per program; lexer errors too
+    valid = [t for t in c16_texts[:2000] if expected(t) is not None] + multi
+    nbad = 300 if ctx.quick else 6000
+    for _ in range(nbad):
+        ls = rng.choice(valid).split("\n")
+        for _ in range(rng.choice([1, 1, 2, 3])):
+            j = rng.randrange(1, len(ls) + 1)
+            bad = rng.choice(REPORT_BAD_LINES)
+            ls.insert(j, ("  " if rng.random() < 0.5 else "") + bad)
+        add("syntax-errors", "\n".join(ls))
+    # regression corpora of both properties
+    for t in REGRESSION + c15.REGRESSION:
+        add("regression", t)
+    return [cps(t) for t in texts], hist
+
+
+def report_nontrivial(case):
+    return True
+
+
+def report_stage(ctx):
+    """the assembled response: real generate_document_diagnostic_report (twice, one manager) + the five real checkers one
+    by one + the document's parser diagnostics vs Report.request on the dumped tree; oracle on the implementation alone"""
+    cases, hist = report_cases(ctx)
+    seen = {}
+
+    def oracle(case, out):
+        seen[case] = out
+        return report_oracle(case, out)
+
+    cov = diff.differential(ctx, "report", cases, split=report_split, canon=report_canon, oracle=oracle,
+                            shrinker=shrinker, nontrivial=report_nontrivial, describe=describe)
+    # what the explored responses contained (non-vacuity of the run)
+    stats = dict(with_parser_diagnostics=0, with_unused=0, with_return_type=0, with_unpurged=0, with_naming=0, with_inherited=0,
+                 with_two_items_on_one_range=0, with_all_six_sources=0, with_observable_interleaving=0, items=0)
+    for c, out in seen.items():
+        parts = out.split("|")
+        if len(parts) != 3:
+            continue
+        resp = [x for x in parts[0].split(";") if x]
+        groups = [[x for x in g.split(";") if x] for g in parts[2].split("/")]
+        stats["items"] += len(resp)
+        flags = [any(x.split(":")[0] == "1" and x.split(":")[2] == "-" for x in resp)] + [bool(g) for g in groups]
+        for key, fl in zip(["with_parser_diagnostics", "with_unused", "with_return_type", "with_unpurged", "with_naming", "with_inherited"], flags):
+            stats[key] += 1 if fl else 0
+        stats["with_all_six_sources"] += 1 if all(flags) else 0
+        rngs = [tuple(x.split(":")[3:7]) for x in resp]
+        stats["with_two_items_on_one_range"] += 1 if len(set(rngs)) < len(rngs) else 0
+        # the shared collector's part is not the three checkers' lists one after the other
+        v2 = resp[len(resp) - sum(len(g) for g in groups[2:]):]
+        seq = [0 if report_item(x)[4].startswith("Local tVarByteArray") else (2 if report_item(x)[4].startswith("Method '") else 1) for x in v2]
+        stats["with_observable_interleaving"] += 1 if seq != sorted(seq) else 0
+    # the range hypotheses of C16_response_in_range_partial, evaluated by the extracted model on every dumped tree
+    # (model-only engine `reportranges`): for every top-level declaration m with a non-empty contribution, every item
+    # of contrib m lies in m's range and no item about the other declarations does.  They are facts about the parser's
+    # ranges, not theorems: a tree parsed WITHOUT diagnostics on which they fail breaks the reading of the partial theorem
+    raws = core.run_lines(diff.Engines.harness(), "report", cases)
+    lefts = [report_split(o)[0] if not (o.startswith("PANIC") or o == "CRASH") else "" for o in raws]
+    rr = core.run_lines(diff.Engines.model(), "reportranges", lefts)
+    ranges = dict(declarations_with_items=0, items_inside_own_range=0, and_no_foreign_item_inside=0,
+                  failing_files=0, failing_files_without_parser_diagnostics=0)
+    clean_fail = []
+    for c, left, r in zip(cases, lefts, rr):
+        f = r.split(":")
+        if len(f) != 3 or not all(x.isdigit() for x in f):
+            continue
+        n, a, ab = [int(x) for x in f]
+        ranges["declarations_with_items"] += n
+        ranges["items_inside_own_range"] += a
+        ranges["and_no_foreign_item_inside"] += ab
+        if ab < n:
+            ranges["failing_files"] += 1
+            if "@" in left and left.split("@", 1)[1] == "":
+                ranges["failing_files_without_parser_diagnostics"] += 1
+                clean_fail.append((c, r))
+    if clean_fail:
+        c, r = min(clean_fail, key=lambda t: len(t[0]))
+        path = core.write_replay(ctx.pid, ctx.seed, {
+            "engine": "report", "broken": "range hypotheses of C16_response_in_range_partial fail on a tree parsed without diagnostics",
+            "case": c, "case_readable": describe(c), "model": r, "n_failing_cases": len(clean_fail)})
+        v = core.Violation("the range hypotheses of the partial locality theorem fail on a cleanly parsed tree", path, False)
+        v.coverage = cov
+        raise v
+    cov.update(dict(histogram=hist, content=stats, range_hypotheses=ranges,
+                    rule=("texts written to <tmp>/aCase.god; ProjectManager::generate_document_diagnostic_report twice on one manager; the "
+                          "document's parser diagnostics and tree dumped; UnusedVarAnalyzer, FunctionReturnTypeChecker (own AstWalker) and "
+                          "UnpurgedVarByteArrayChecker, NamingConventionChecker, InheritedChecker (own walker, own collector) driven one by "
+                          "one; the extracted Report.request on the dumped tree + parser diagnostics must print the same response ITEM BY "
+                          "ITEM IN ORDER (range, severity, source, tags, full message text; maximal runs of `Unused var` warnings compared "
+                          "as multisets: HashMap iteration), the same idempotence flag and the same five per-checker lists (sorted). Oracle "
+                          "on the implementation alone: starts with the parser diagnostics in parser order (ERROR/gold/untagged), none "
+                          "later; second request identical; the remainder = multiset union of the five checkers' own lists, first all of "
+                          "UnusedVarAnalyzer's, then all of FunctionReturnTypeChecker's. Cases: samples of the C16 and C15 generator streams, "
+                          "/repo/test/*.god and /repo/test/workspace/*.god, programs with 1-3 injected syntax / lexical errors, programs "
+                          "where several rules hit one name or one range (exhaustive product), both regression corpora")))
+    return cov
+
+
 def regression_corpus(ctx):
     """the witnesses of the repaired defects: implementation = model = the property's expectation, no deviation"""
     hb = diff.Engines.harness()
@@ -870,6 +1158,7 @@ def correspondence(ctx, broken_obligations=()):
                 pending.append(v)
                 cov = dict(getattr(v, "coverage", None) or {})
             cov["permutation_pairs_checked"] = permutation_check(ctx, pairs)
+            cov["report"] = report_stage(ctx)
             if pending:
                 pending[0].coverage = cov
                 raise pending[0]
@@ -882,7 +1171,34 @@ def correspondence(ctx, broken_obligations=()):
     return cov
 
 
+def replay_report(ctx, rep):
+    case = rep["case"]
+    with TmpWorkspace():
+        raw = core.run_lines(diff.Engines.harness(), "report", [case], shards=1)[0]
+        left, obs = report_split(raw)
+        out = report_canon(obs)
+        mod = report_canon(core.run_lines(diff.Engines.model(), "report", [left], shards=1)[0])
+    r = report_oracle(case, out)
+    print("text:\n" + describe(case))
+    for name, o in (("implementation", out), ("model", mod)):
+        print(name + ":")
+        parts = o.split("|")
+        for x in [y for y in parts[0].split(";") if y]:
+            try:
+                print("   ", report_item(x))
+            except Exception:
+                print("   ", x)
+        print("   ", "|".join(parts[1:])[:300])
+    print("oracle:", r or "property holds on this case")
+    if r or out != mod:
+        print("VIOLATION property=C16 replay=%s" % rep.get("how_to_rerun", "?").split()[-1])
+        return 1
+    return 0
+
+
 def replay(ctx, rep):
+    if rep.get("engine") == "report":
+        return replay_report(ctx, rep)
     case = rep["case"]
     with TmpWorkspace():
         hb = diff.Engines.harness()
